@@ -19,14 +19,15 @@ RULE = ("random handshake-consistent joint degree sequences (N 1..40 quick / 1..
         "(1),(2),(3),(4),(1,2),(2,1),(1,3),(2,2),(2,2,1),(1,1),(1,1,1)) x {fast, network, custom} x {direct, GCMAlgorithmMain enum/str, "
         "factory} x 7 RNG schedules (3 seeds + identity/reverse/rotate/sort-descending shuffles); a case = one (jds, configuration) under "
         "all schedules; in 60% of the cases ONE generator object serves all seven calls and receives the caller's own list object, which is edited in place "
-        "between calls (rows permuted / swapped, zero-degree vertices appended or dropped); non-trivial = >=2 motif instances and (a zero-degree vertex or a vertex with degree >=2 in a topology); "
+        "between calls (rows permuted / swapped, zero-degree vertices appended or dropped), and in half of those a second generator of the same class with another "
+        "configuration is built and used in between; non-trivial = >=2 motif instances and (a zero-degree vertex or a vertex with degree >=2 in a topology); "
         "distinct = SHA-1 of (configuration, jds)")
 ASSUMPTIONS = ["only handshake-consistent inputs are generated (column sums divisible; equal instance counts across a motif's orbits)",
                "the oracle is order- and orientation-insensitive and never looks at which stubs met, only at conservation"]
 HEADLINE = ["generations", "motif_instances", "columns_conserved", "edgelist_outputs", "network_outputs", "fast", "network", "custom",
-            "path_direct", "path_factory", "path_main-enum", "path_main-str", "shuffle_calls", "zero_degree_cases", "multi_orbit_cases", "reused_generator_cases", "in_place_edits_between_calls"]
+            "path_direct", "path_factory", "path_main-enum", "path_main-str", "shuffle_calls", "zero_degree_cases", "multi_orbit_cases", "reused_generator_cases", "in_place_edits_between_calls", "second_live_generator_cases", "library_motif_calls_checked"]
 REQUIRED = {t: {"fast": 20, "network": 20, "custom": 20, "path_direct": 10, "path_factory": 10, "path_main-enum": 10,
-                "path_main-str": 10, "zero_degree_cases": 20, "multi_orbit_cases": 10, "shuffle_calls": 100, "reused_generator_cases": 50, "in_place_edits_between_calls": 50}
+                "path_main-str": 10, "zero_degree_cases": 20, "multi_orbit_cases": 10, "shuffle_calls": 100, "reused_generator_cases": 50, "in_place_edits_between_calls": 50, "second_live_generator_cases": 20}
             for t in ("quick", "thorough")}
 SCHEDULES = [("seed", 1), ("seed", 2), ("seed", 3), ("preset", "identity"), ("preset", "reverse"), ("preset", "rotate"), ("preset", "sortdesc")]
 
@@ -106,7 +107,19 @@ def run_case(case, oracles=("conservation",), custom_share=0.35, force_special=F
         alg_rec = (alg0, rec0, cls0)
         live = list(jds)
         res.count("reused_generator_cases")
+    other = None
     for n_s, sched in enumerate(SCHEDULES):
+        if reuse and n_s == 2 and rng.random() < 0.5:
+            # a SECOND generator object of the same class with another configuration is built (and used) while the first is still alive
+            cfg2 = gen.make_custom_config(rng, force=force_special) if cfg["flavour"] == "custom" else gen.make_fast_config(rng)
+            if cfg2["flavour"] != "custom":
+                cfg2["flavour"] = cfg["flavour"]
+            cfg2["path"] = cfg["path"]
+            jds2, _ = gen.make_jds(rng, cfg2, nmax=12)
+            r2 = run_generation(res, cfg2, jds2, ("seed", 11), oracles)
+            res.count("second_live_generator_cases")
+            if r2 is None:
+                break
         if reuse and n_s > 0 and rng.random() < 0.5:
             how = rng.choice(["permute-rows", "append-zero-vertices", "swap-two-rows", "drop-zero-vertex"])
             if how == "permute-rows":
